@@ -67,7 +67,7 @@ META = {
     },
     "C05": {
         "technique": "deterministic step-budget watchdog on analyses + widening-chain stationarity bound + membership of widening/narrowing arguments; choice-tape PBT and libFuzzer",
-        "text": "Sampled search: (a) forward analyses run under a deterministic event budget three orders of magnitude above ordinary runs; (b) generated "
+        "text": "Sampled search: (a) forward analyses run under a deterministic event budget more than two orders of magnitude above the largest ordinary run observed; (b) generated "
                 "ascending chains must become stationary within a generous structural bound on the number of strict increases, every widening result "
                 "must contain the witnesses of both arguments and narrowing of a decreasing pair the witnesses of its second argument.",
         "note": "Termination can only be refuted, by exceeding the budget/bound; the bound is an over-estimate (observed increases are reported next to it). "
